@@ -1,14 +1,14 @@
 SPECIFICATION Spec
 CONSTANTS
-  Addr <- AddrRestart
-  Gaps <- GapsRestartF
+  Addr <- Addr2
+  Gaps <- GapsFixed2
   T = 10
-  D = 0
-  MaxEvents = 4
+  D = 1
+  MaxEvents = 3
   MaxFails = 0
-  Extra = "none"
-  Backoff = FALSE
-  Closed = TRUE
+  Extra = "start"
+  Backoff = TRUE
+  Closed = FALSE
   ObserveCb = FALSE
   TrackQuiet = FALSE
   UnitMs = 1000
